@@ -16,6 +16,10 @@
              (`seed_repair_queues`) enqueues, for every present cell it iterates over, all simplex
              classes (facets, ridges, edges, triangles) — no class is skipped on some path of an
              iteration (a class that is never enqueued is neither repaired nor *verified*).
+ POSTORIENT  flips mutate cell orderings; the repaired triangulation is exposed (an exported operation returns
+             Ok) only after the geometric orientation was re-validated — the step the insertion path performs
+             after its local repair (least fixed point "can return success after a flip driver succeeded
+             without passing validate_geometric_cell_orientation").
 Not decided: convergence, equality with the unique Delaunay triangulation."""
 import flow
 import gate
@@ -57,7 +61,112 @@ def run(ctx):
         _nodrop(ctx, cfg, prog, lv)
         _sameverts(ctx, cfg, prog, mod)
         _seedcover(ctx, cfg, prog, mod)
+        _postorient(ctx, cfg, prog, lv)
     return ctx.finish(EXPLANATION)
+
+
+ORIENT = 'core::triangulation::Triangulation::validate_geometric_cell_orientation'
+# exported operations in which an un-normalised orientation after a flip driver is accepted, with the reason
+POSTORIENT_TABLE = {}
+
+
+def _closure_operands(body, t):
+    out = []
+    for o in t.args:
+        if o.kind == 'k' and o.const and 'closure' in o.const:
+            out.append(o.const['closure'])
+        elif o.place is not None and o.place.is_local():
+            d = body.single_def(o.place.local)
+            if d is not None and d[1] != 'term' and d[2].rv.k == 'agg' and d[2].rv.raw.get('ak') == 'closure':
+                out.append(d[2].rv.raw['def'])
+    return out
+
+
+def _success_exits(b):
+    rt = flow.type_kind(b.locals[0])
+    if rt in ('result', 'option'):
+        return [e['bb'] for e in gate.success_exit_blocks(b)]
+    return [blk.idx for blk in b.blocks if not blk.cleanup and blk.term.k == 'ret']
+
+
+def _postorient(ctx, cfg, prog, lv, constructors=False):
+    ctx.rule('POSTORIENT', 'no exported operation returns success after a flip repair driver succeeded without re-validating '
+                           'the geometric orientation of the cells')
+    ctx.anchor(cfg, ORIENT)
+    # gates: functions that cannot return success without the orientation check having passed (greatest fixed
+    # point), not merely functions from which the check is reachable
+    cands = {q for q, b_ in prog.bodies.items() if ORIENT in lv.reach_set(q) and flow.type_kind(b_.locals[0]) == 'result'}
+    G, _ = gate.certified_set(prog, lv, {ORIENT}, cands, zero_counters=('core::triangulation_data_structure::Tds::number_of_cells',))
+    orient_reach = set(G) | {ORIENT}
+    ctx.info.setdefault('orientation_gates', {})[cfg] = sorted(orient_reach)
+    X = set(DRIVERS)          # bodies that can return success with a driver's un-normalised result
+    why = {}
+    changed = True
+    while changed:
+        changed = False
+        for q, b in prog.bodies.items():
+            if q in X:
+                continue
+            cflows = None
+            starts = []
+            failed = set()
+            for bb, t in b.calls():
+                if any(x in X for x in (t.resolved, t.callee) if x):
+                    cflows = cflows or flow.all_call_flows(b)
+                    # start right after the call (its result may travel through combinators such as and_then
+                    # before it is split) and do not follow the edges on which the driver had failed
+                    starts += list(b.succs(bb))
+                    failed |= set(cflows[bb].err_edges)
+                    if t.dest is not None and t.dest.is_local() and t.dest.local == 0:
+                        starts.append(bb)     # `_0 = driver(..)`: the driver's Ok is returned as it is
+            for blk in b.blocks:
+                if blk.cleanup:
+                    continue
+                for s_ in blk.stmts:
+                    if s_.kind == 'A' and s_.rv.k == 'agg' and s_.rv.raw.get('ak') == 'closure' and s_.rv.raw['def'] in X:
+                        starts.append(blk.idx)
+            if not starts:
+                continue
+            cflows = cflows or flow.all_call_flows(b)
+            via = set()
+            for bb, t in b.calls():
+                names = [x for x in (t.resolved, t.callee) if x]
+                if (t.callee or '').rsplit('::', 1)[-1] == 'and_then':
+                    # `r.and_then(|_| check())`: Ok of the combinator implies the closure ran and returned Ok
+                    names += _closure_operands(b, t)
+                if any(x in orient_reach for x in names) and not any(x in X for x in (t.resolved, t.callee) if x):
+                    cf = cflows[bb]
+                    via |= cf.ok_edges
+                    if not cf.ok_edges and not cf.err_edges:
+                        via |= {(bb, s_) for s_ in b.succs(bb)}
+            # with no cells there is nothing whose orientation could be wrong
+            zero = gate._zero_edges(b, 'core::triangulation_data_structure::Tds::number_of_cells')
+            reach = flow.reach_edges_cp(b, starts, avoid_edges=via | (failed - via) | zero)
+            esc = [x for x in _success_exits(b) if x in reach]
+            if esc:
+                X.add(q)
+                why[q] = esc
+                changed = True
+    n = 0
+    for q, b in sorted(prog.bodies.items()):
+        if b.kind == 'closure' or not b.exported:
+            continue
+        if not (lv.reach_set(q) & DRIVERS):
+            continue
+        is_ctor = 'DelaunayTriangulation<' in b.locals[0] and not any(
+            pair.pointee_head(b.locals[i_])[0] in (pair.TRI, pair.DT) and pair.pointee_head(b.locals[i_])[1]
+            for i_ in range(1, b.nargs + 1))
+        if is_ctor != constructors:
+            continue      # constructors are judged under C01, operations on a live triangulation under C08
+        n += 1
+        ok = q not in X
+        ctx.ob('POSTORIENT', q, cfg, ok,
+               'success is reported only after validate_geometric_cell_orientation passed (or no flip driver succeeded on the path)'
+               if ok else 'a success exit (blocks %s) is reachable after a flip repair driver succeeded without '
+               're-validating the geometric orientation: the repaired triangulation can be exposed with negatively oriented cells '
+               '(Level 3 invalid)' % why.get(q), assumed=POSTORIENT_TABLE.get(q), site='%s:%d' % (b.file, b.line))
+    ctx.floor('exported %s that can reach a repair driver (POSTORIENT)' % ('constructors' if constructors else 'operations'), 5, n, cfg)
+    ctx.info.setdefault('postorient_internal_unnormalised', {})[cfg] = sorted(x for x in X - DRIVERS if prog.bodies[x].kind != 'closure')[:40]
 
 
 SEEDQ = F + 'seed_repair_queues'
